@@ -169,7 +169,7 @@ pub fn run(tier: &str, seed: u64, replay: Option<String>) -> i32 {
     let mut line_jobs: Vec<DJob> = vec![];
     for f in &files {
         let mut js = diskrun::jobs_for(f, diskfault::enumerate_c19(f, false), 1, false, true);
-        js.retain(|j| matches!(j.edit, Edit::DelLine { .. } | Edit::DupLine { .. } | Edit::RenameQuoted { .. } | Edit::NumToText { .. } | Edit::BlockRemoved { .. }));
+        js.retain(|j| matches!(j.edit, Edit::DelLine { .. } | Edit::DupLine { .. } | Edit::RenameQuoted { .. } | Edit::NumToText { .. } | Edit::NumOor { .. } | Edit::BlockRemoved { .. }));
         line_jobs.extend(js);
     }
     // generated projects: a space that keeps no enclosure of its own (HULC defines a partition in
@@ -188,7 +188,59 @@ pub fn run(tier: &str, seed: u64, replay: Option<String>) -> i32 {
             });
         }
     }
-    let line_picked = diskrun::stratified(line_jobs, if thorough { 6 } else { 1 }, &mut rng);
+    // generated projects: an unused copy of a profile / construction with everything it refers
+    // to, damaged by one line edit inside the copy (damage in definitions nobody uses)
+    let mut n_clone_space = 0usize;
+    let mut clone_jobs: Vec<DJob> = vec![];
+    for f in &files {
+        let lines = diskfault::split_lines(&f.text);
+        let roots: Vec<usize> = diskfault::scan_blocks(&lines)
+            .iter()
+            .filter(|b| matches!(b.btype.as_str(), "SPACE-CONDITIONS" | "SYSTEM-CONDITIONS" | "CONSTRUCTION" | "GAP" | "SCHEDULE-PD"))
+            .map(|b| b.start)
+            .collect();
+        // a few roots per file, seeded
+        let mut roots = roots;
+        rng.shuffle(&mut roots);
+        // every profile (there are few), a few of the other roots
+        let (mut profiles, mut others): (Vec<usize>, Vec<usize>) = roots.into_iter().partition(|r| lines[*r].contains("-CONDITIONS"));
+        profiles.truncate(if thorough { 40 } else { 4 });
+        others.truncate(if thorough { 12 } else { 1 });
+        let mut roots = profiles;
+        roots.extend(others);
+        for root in roots {
+            if let Some((t, (a, b))) = diskfault::clone_subgraph(&f.text, root) {
+                let cf = crate::corpus::CorpusFile { kind: f.kind, rel: f.rel.clone(), text: t };
+                for v in diskfault::enumerate_c19(&cf, false) {
+                    let l = v.edit.line().unwrap_or(usize::MAX);
+                    if l < a || l > b {
+                        continue;
+                    }
+                    if !matches!(v.edit, Edit::DelLine { .. } | Edit::DupLine { .. } | Edit::NumOor { .. } | Edit::NumToText { .. }) {
+                        continue;
+                    }
+                    n_clone_space += 1;
+                    clone_jobs.push(DJob {
+                        file: f.rel.clone(),
+                        edit: Edit::CloneDamaged { line: root, inner: Box::new(v.edit.clone()) },
+                        cell: format!("clone|{}", v.cell),
+                        level: 1,
+                        e2e: false,
+                        closure: true,
+                        cost: f.text.len(),
+                    });
+                }
+            }
+        }
+    }
+    let clone_budget = if thorough { 60_000 } else { 4_500 };
+    if clone_jobs.len() > clone_budget {
+        rng.shuffle(&mut clone_jobs);
+        clone_jobs.truncate(clone_budget);
+    }
+    let n_clone = clone_jobs.len();
+    let mut line_picked = diskrun::stratified(line_jobs, if thorough { 25 } else { 1 }, &mut rng);
+    line_picked.extend(clone_jobs);
     let n_line = line_picked.len();
     jobs.extend(line_picked);
     eprintln!("[C02] + {} generated projects (option variations) + {} (single-line damage)", n_opt, n_line);
@@ -337,6 +389,8 @@ pub fn run(tier: &str, seed: u64, replay: Option<String>) -> i32 {
     extra.insert("data_level_definition_removals".into(), json!(db_cases));
     extra.insert("generated_projects_option_variation".into(), json!(n_opt));
     extra.insert("generated_projects_single_line_damage".into(), json!(n_line));
+    extra.insert("unused_copy_damage_space".into(), json!(n_clone_space));
+    extra.insert("unused_copy_damage_run".into(), json!(n_clone));
     extra.insert("fault_kinds_fired".into(), json!(fired));
     extra.insert("outcome_classes".into(), json!(classes));
     extra.insert("models_returned_after_a_fault".into(), json!(ok_models_after_fault));
